@@ -158,10 +158,7 @@ let () =
         let bs = bytes_of_hex hex in
         let len = L.length bs in
         let nm = S.concat "" (L.map (fun x -> S.make 1 (Char.chr (int_of_n x land 255))) (name_of bs)) in
-        let r = if nm = "hvcC" then hvcc_box (path = "S") bs
-          else if nm = "tlou" || nm = "alou" then lou_box (path = "S") bs
-          else if nm = "avcC" then avcc_box (path = "S") bs
-          else if path = "S" then alloc_box_sr bs else alloc_box_r bs in
+        let r = if path = "S" then alloc_box_sr bs else alloc_box_r bs in
         let lb = int_of_string lb in
         (match r with
          | None ->
